@@ -100,6 +100,11 @@ var c15macros = []c15macro{
 	{"loop2", "[& body]", `(for [(def i 0) (< i 2) (set i (+ i 1))] (unquote-splicing body))`},
 	{"fnwrap", "[p]", `((fn [z] (+ z (unquote p))) 10)`},
 	{"nest", "[p q]", `(list (list (unquote p)) [(unquote q) (list (unquote p))])`},
+	// expansions that leave the surrounding loop or re-enter the surrounding function: the compiler has to know how
+	// many scopes the call site is nested in
+	{"brk", "[p]", `(cond (unquote p) (break) nil)`},
+	{"cont", "[p]", `(cond (unquote p) (continue) nil)`},
+	{"recur", "[p]", `(cond (== n 0) (unquote p) (user (- n 1)))`},
 }
 
 // substitute the macro's template by hand (R4 on forms)
@@ -142,7 +147,7 @@ func c15expand(m c15macro, args []*T) *T {
 }
 
 func c15argForms() []*T {
-	return []*T{gen.T1(Int(1)), gen.T1(Int(0)), Sym("x"), p1(`(+ n 1)`), Sym("gv")}
+	return []*T{gen.T1(Int(1)), gen.T1(Int(0)), Sym("x"), p1(`(+ n 1)`), Sym("gv"), p1(`(== j 1)`)}
 }
 
 // call sites: the macro call $1 in different surroundings
@@ -155,6 +160,9 @@ func c15sites() []gen.Ctx {
 		tmpl("in-let", 1, `(let [x 40 n 41] $1)`),
 		tmpl("in-arg", 1, `(list 1 $1 2)`),
 		tmpl("in-cond", 1, `(cond (== n 3) $1 0)`),
+		tmpl("in-loop-let", 1, `(begin (def acc []) (for [(def j 0) (< j 3) (set j (+ j 1))] (let [q j] $1 (set acc (append acc q)))) (list acc gv))`),
+		tmpl("in-fn-loop-newscope", 1, `(begin (defn user [n] (begin (def acc []) (for [(def j 0) (< j 3) (set j (+ j 1))] (newScope (def q j) $1 (set acc (append acc q)))) (list acc n))) (list (user 7) gv))`),
+		tmpl("in-defn-let-newscope", 1, `(begin (defn user [n] (let [q n] (newScope $1))) (list (user 2) gv))`),
 	}
 }
 
@@ -186,6 +194,12 @@ func c15idx(m c15macro, args []*T, site *gen.Ctx) string {
 }
 
 func c15macroCase(c *engine.Ctx, m c15macro, args []*T, site gen.Ctx, viaOuter bool) {
+	if (m.name == "brk" || m.name == "cont") && (viaOuter || (site.Name != "in-loop-let" && site.Name != "in-fn-loop-newscope")) {
+		// break/continue are resolved when the enclosing form is compiled: outside a loop, or in an argument of a
+		// call (arguments are compiled when the call runs), they are rejected whether or not they would execute.
+		// Only statement positions inside a loop are compared.
+		return
+	}
 	idxw := fmt.Sprintf("M|%s|%v|", c15idx(m, args, &site), viaOuter)
 	// implementation side: defmac + call; reference side: the expansion written by hand
 	args = renumberAll(args) // number the traced calls once: a duplicated argument form keeps its id
@@ -291,7 +305,7 @@ func init() {
 		ID:    "C15",
 		Level: "exploration",
 		Rule: "templates: every list/array of width 1..2 over a pool of 22 leaves (literals, ~x for 6 bindings, ~@xs for 4 lists incl. empty and nested, ~(compound), ~@(compound), traced unquotes) and width-1..2 nested containers; width 3 over the leaves; " +
-			"each in explicit form and with the reader sugar ^ ~ ~@; value compared with exact substitution (R4 inside the reference evaluator). Macros: 12 macros x all argument tuples over 5 forms x 7 call sites (top level, function, defn, loop, let, argument, cond) x {direct, inside another macro's expansion}: " +
+			"each in explicit form and with the reader sugar ^ ~ ~@; value compared with exact substitution (R4 inside the reference evaluator). Macros: 15 macros (three of them expanding to break / continue / a tail self-call) x all argument tuples over 6 forms x 10 call sites (top level, function, defn, loop, let, argument, cond, let inside a loop, newScope inside a loop inside a function, let+newScope inside a defn) x {direct, inside another macro's expansion}: " +
 			"value/effects equal those of the hand-written expansion, stacks at rest; macexpand leaves depths and globals of the caller unchanged and prints the exact substitution",
 		Assumptions: []string{"splicing a non-list and nested syntax-quotes are outside the modelled fragment (skipped)"},
 		Run: func(c *engine.Ctx) {
